@@ -10,7 +10,7 @@ func init() {
 		id: "C34", title: "Membership events are emitted once and only after rebalancing settles",
 		technique: "lockset with *Locked caller-holds propagation, guard dominance (emission only on the 'epoch completed' edge or from the timeout callback), who-may-call on the emitters, dedup-filter ordering (Contains ⇒ return ≺ Add ≺ send), test-and-set rule for epoch dedup",
 		explanation: "Decides: (1) every event-tracking map, filter and epoch variable of the cluster engine is accessed only under eventsLock; the *Locked helpers are called only with it held; (2) emission gating: the per-epoch emitters are called only on edges where the epoch is known to be complete (the comma-ok lookup in rebalanceCompleteSeen succeeded, or the completion was just recorded), the overdue emitter only from the timer callback armed when the departure was tracked; NodeLeft/NodeJoined payloads are sent only by emitNodeLeftLocked / emitNodeJoinedLocked, which are called only by those emitters; (3) dedup: both emitters return when the node is already in their filter, add it otherwise, and only then send; a NodeLeft removes the node from the joined filter (a later NodeJoined is a new event); (4) the local node's own join is dropped before anything is recorded (trackNodeJoinEvent, processRebalanceStart); (5) rebalance start/complete notifications are deduplicated by epoch with a test-and-set under the lock.",
-		assumptions: []string{"full history semantics (epoch supersession, a node that leaves, rejoins and leaves again: the left filter is never cleared by a NodeJoined — noted asymmetry, outside the at-most-once statement)", "a full event channel drops the event (logged)"},
+		assumptions: []string{"full history semantics (epoch supersession across overlapping rebalances)", "a full event channel drops the event (logged)"},
 		minObl:     30,
 		run:        runC34,
 	})
@@ -129,6 +129,20 @@ func runC34(c *Ctx) {
 		joined := c.Field("internal/cluster", "cluster", "nodeJoinedEventsFilter")
 		w := ef.MustPrecede(ef.CallOnField(joined, "Remove"), nil, ef.CallTo(c.FuncObj("internal/cluster", "cluster.sendEventLocked")))
 		c.Check(w == nil, "left-clears-joined", "emitting NodeLeft re-opens NodeJoined for that node", c.P.Pos(el.Decl.Pos()), ef.describe(w))
+		// and symmetrically: a join re-opens NodeLeft (otherwise a node that comes back under the same address and leaves again is never reported)
+		ej := c.Func("internal/cluster", "cluster.emitNodeJoinedLocked")
+		jf := c.NewFlow(ej)
+		left := c.Field("internal/cluster", "cluster", "nodeLeftEventsFilter")
+		w = jf.MustPrecede(jf.CallOnField(left, "Remove"), nil, jf.CallTo(c.FuncObj("internal/cluster", "cluster.sendEventLocked")))
+		c.Check(w == nil, "joined-clears-left", "emitting NodeJoined re-opens NodeLeft for that node (sibling symmetry of the two dedup filters)", c.P.Pos(ej.Decl.Pos()),
+			"the NodeLeft filter is never cleared by a join: after leave → rejoin → leave the second departure is dropped and never relocated; "+jf.describe(w))
+		for _, pr := range []struct{ fn, filt string }{{"cluster.trackNodeJoinEvent", "nodeLeftEventsFilter"}, {"cluster.trackNodeLeftEvent", "nodeJoinedEventsFilter"}} {
+			fn := c.Func("internal/cluster", pr.fn)
+			ff := c.NewFlow(fn)
+			other := c.Field("internal/cluster", "cluster", pr.filt)
+			n := len(ff.Find(ff.CallOnField(other, "Remove")))
+			c.Check(n >= 1, pr.fn+"/reopens-opposite", "tracking a membership change re-opens the opposite event for that node", c.P.Pos(fn.Decl.Pos()), "opposite filter not cleared")
+		}
 	})
 
 	c.Rule("self-filter", func() {
